@@ -164,6 +164,19 @@ def order(ctx, o, ps: PassShape, pt):
             else:
                 o.site(ps.f, fo, "dependencies in list order (own first, then ancestors')")
             continue
+        if pt is None:
+            # no prerequisite term recognised (the bound is accumulated inside this loop): classify the collection directly
+            try:
+                srcs = ps.collection_sources(coll, ps.cfg.node_of(fo))
+            except Exception:
+                srcs = None
+            if srcs and srcs['own'] and not srcs['unknown']:
+                if srcs['setlike']:
+                    o.refute(ps.f, fo, srcs['setlike'][0], "the dependency collection is built as a set: its iteration order (and with it "
+                                                            "the order in which capacity is handed out) is not the list order")
+                else:
+                    o.site(ps.f, fo, "dependencies in list order (own first, then ancestors')")
+                continue
         o.undecided(ps.f, fo, fo.iter, "recursion over an unrecognised collection")
     # dependencies before children
     los = [lo for lo in (loop_of(c) for c in ps.pass_calls()) if lo is not None]
